@@ -86,7 +86,10 @@ func OracleAll(sc pairsim.Scenario, tr pairsim.Trace) (out []*evid.Failure) {
 		}
 		success := r.Err == "" && r.Code >= 64 && r.Code < 96
 		if op.Kind == "write" {
-			if inv > 1 {
+			// (a non-confirmable message whose reply is withheld by its own No-Response option got no
+			// reply, so there is nothing a duplicated datagram could be answered from: it is handled
+			// again, which C05's statement leaves open - not a matter of block-wise transfer)
+			if inv > 1 && (op.Con || op.NoResp&2 == 0) {
 				report(evid.Failf("bw/write-delivered-twice", sc, "operation %d: a one-way message was handed to the application %d times", i, inv))
 			}
 			// the receiver drops a reassembly that takes longer than its block-wise timeout: delivery is
